@@ -22,6 +22,11 @@ Accepted branch   (b = 1) is run with two stub decoders: the zero correction (pr
                   a stabilizer) and the 'perfect' one returning the proposal itself (total error 0: the step must
                   stay on the previous error and return log P(previous)).
 
+Error dtype       the binary symplectic vector is also passed as bool, int64 and float64 (0./1.) arrays: all 4^n
+                  errors on the n = 4 codes for three directions with r_x != r_y, every noise deformation;
+                  weight <= 1 on every other code; one Metropolis sub-case starts from a bool previous error.
+                  Same oracle.  A dtype the implementation refuses with an exception is counted, not reported.
+
 Reference channel (written from the definition, shares nothing with error_probability):
 (p_I, p_X, p_Y, p_Z)_undeformed = (1-p, p r_x, p r_y, p r_z) on every qubit; with a noise-side
 deformation D_i = code.get_deformation(coordinate_i, name, **kwargs):  p_def[sigma][i] = p_undef[D_i(sigma)].
@@ -85,6 +90,9 @@ BOUNDS = {
         'metropolis': 'n = 4: previous errors of weight <= 2; n = 5, 6: weight <= 1; larger codes: covering set '
                       '(identity, k-th allowed Pauli on every qubit, singles on 3 qubits), 3 directions; '
                       'accepted branch: n = 4, identity previous error, p = 0.1, zero-correction and perfect stub decoder',
+        'dtype': 'bool/int64/float64: all errors on n = 4 codes x (.2,.3,.5),(.6,.1,.3),(.5,0,.5) x all deformations '
+                 'x p; weight <= 1 on all other codes x (.2,.3,.5) x p = 0.1 x deformation None/first; Metropolis '
+                 'from bool previous errors of weight <= 1 on n = 4 codes',
         'large-n': 'Toric2DCode(24,24) n=1152, RotatedPlanar2DCode(33,33) n=1089: 4 errors x p in {0.3,0.4} x '
                    '(1/3,1/3,1/3),(.2,.3,.5) x deformation None/XZZX',
         'p': PS,
@@ -97,6 +105,7 @@ BOUNDS = {
                       '(1/3,1/3,1/3)); larger codes (the weight-2 members and Color3DCode): covering set, '
                       'denominator 2 + (1/3,1/3,1/3) + (.2,.3,.5); accepted branch: previous error of weight <= 1 (n = 4) / '
                       'identity (n = 5, 6), p = 0.1, zero-correction and perfect stub decoder',
+        'dtype': 'as quick',
         'large-n': 'as quick plus Toric2DCode(20,29) n=1160 and Planar2DCode(24,24) n=1105',
         'p': PS,
     },
@@ -251,6 +260,26 @@ def cases(tier, seed):
                 out.append({'part': 'metropolis', 'cls': name, 'size': size, 'deformation': d, 'dirs': dc,
                             'ps': pc, 'prev': 'cover', 'accept_w': -1, 'accept_ps': [],
                             'cost': 14 * 3 * n * (1.5 + n / 25), 'n': n})
+    # ---- error-dtype axis (same oracle, the bsf vector passed as bool / int64 / float64)
+    dts = ['bool', 'int64', 'float64']
+    ddirs = [GENERIC, [6, 1, 3, 10], [1, 0, 1, 2]]
+    smalls = small_codes(tier)
+    for name, size in smalls:
+        n = F.n_qubits(name, size)
+        if n == 4:
+            for d in _defs(name):
+                out.append({'part': 'enum', 'cls': name, 'size': size, 'deformation': d, 'dirs': ddirs, 'ps': PS,
+                            'errors': 'all', 'dtypes': dts, 'cost': 4 ** n * 3, 'n': n})
+                if d is None or d == _defs(name)[1]:
+                    out.append({'part': 'metropolis', 'cls': name, 'size': size, 'deformation': d,
+                                'dirs': ddirs[:2], 'ps': [0.1], 'prev': 'w1', 'accept_w': -1, 'accept_ps': [],
+                                'prev_dtype': 'bool', 'cost': 4 ** n * 3 + 1, 'n': n})
+    others = [(nm, sz, F.n_qubits(nm, sz)) for nm, sz in smalls if F.n_qubits(nm, sz) != 4] \
+        + [(nm, sz, n) for nm, sz, n, es in large_codes(tier)]
+    for name, size, n in others:
+        for d in _defs(name)[:2]:
+            out.append({'part': 'lowweight', 'cls': name, 'size': size, 'deformation': d, 'dirs': [GENERIC],
+                        'ps': [0.1], 'errors': 'w1', 'dtypes': dts, 'cost': (1 + 3 * n) * 0.5, 'n': n})
     # ---- part large-n (product underflows, log form must not)
     for name, size in LARGE_N[tier]:
         for d in (None, ['XZZX', {}]):
@@ -430,20 +459,37 @@ def _eval_errors(case):
     d = case.get('deformation')
     perms = _perms(code, d)
     sigs = _error_set(n, case['errors'])
-    vecs = [_vec(s, n) for s in sigs]
+    vecs_u8 = [_vec(s, n) for s in sigs]
     has_id = [0 in s for s in sigs]
     rec = _Rec(case, n)
     res = {'evals': 0, 'nontrivial': 0, 'violations': rec.v, 'outcomes': [], 'samples': []}
     ex = {'errors_checked': 0, 'zero_probability_errors': 0, 'sampling_scripts_replayed': 0,
           'normalisation_sums': 0}
+    dtypes = case.get('dtypes', ['uint8'])
+    vecs_by_dt = {dt: (vecs_u8 if dt == 'uint8' else [v.astype(dt) for v in vecs_u8]) for dt in dtypes}
+    refused = set()
     for dr in case['dirs']:
         r = _rvec(dr)
         ryp = dr[1] > 0
         em = _model(case, r)
-        for p in case['ps']:
+        for p, dt in itertools.product(case['ps'], dtypes):
+            if dt in refused:
+                continue
+            vecs = vecs_by_dt[dt]
             ch = _channel(perms, r, p)
             rec.channel_y = any(c[2] > 0 for c in ch)
             iv = [class_intervals(c) for c in ch]
+            if dt != 'uint8':
+                # a dtype the implementation refuses outright is counted, not reported
+                try:
+                    with np.errstate(divide='ignore', invalid='ignore'):
+                        em.error_probability(vecs[0], code, p)
+                        em.error_probability(vecs[0], code, p, log_output=True)
+                except (TypeError, ValueError):
+                    refused.add(dt)
+                    ex['dtype_refused_' + dt] = 1
+                    continue
+                ex['errors_checked_' + dt] = ex.get('errors_checked_' + dt, 0) + len(vecs)
             total = []
             total_ref = []
             nz = 0
@@ -466,12 +512,15 @@ def _eval_errors(case):
                         worst = max(worst, abs(got / ref - 1))
                     if not _close(got, ref, TOL_REL):
                         rec.add('probability-differs', hid, ryp,
-                                {'error': _pstr(sig), 'direction': list(r), 'p': p, 'got': got, 'reference': ref})
+                                {'error': _pstr(sig), 'direction': list(r), 'p': p, 'got': got, 'reference': ref},
+                                dtype=dt)
                     if not _log_ok(lgot, ref):
                         rec.add('log-differs', hid, ryp,
                                 {'error': _pstr(sig), 'direction': list(r), 'p': p, 'got_log': repr(lgot),
-                                 'reference_log': repr(math.log(ref) if ref > 0 else -math.inf)})
+                                 'reference_log': repr(math.log(ref) if ref > 0 else -math.inf)}, dtype=dt)
                     # ---- consistency with sampling
+                    if dt != 'uint8':
+                        continue
                     if ref > 0:
                         mass = 1.0
                         script = []
@@ -489,15 +538,15 @@ def _eval_errors(case):
                                     {'reason': 'midpoint script of the I,X,Y,Z stacking does not generate the error',
                                      'error': _pstr(sig), 'generated': _pstr(_sig_of(out, n))
                                      if len(out) == 2 * n else 'len %d' % len(out),
-                                     'variates_consumed': rng.pos, 'direction': list(r), 'p': p})
+                                     'variates_consumed': rng.pos, 'direction': list(r), 'p': p}, dtype=dt)
                         elif not _close(got, mass, TOL_MASS):
                             rec.add('sampling-mass-differs', hid, ryp,
                                     {'error': _pstr(sig), 'direction': list(r), 'p': p, 'error_probability': got,
-                                     'variate_mass_of_generating_script': mass})
+                                     'variate_mass_of_generating_script': mass}, dtype=dt)
                     elif got != 0.0:
                         rec.add('sampling-mass-differs', hid, ryp,
                                 {'error': _pstr(sig), 'direction': list(r), 'p': p, 'error_probability': got,
-                                 'variate_mass_of_generating_script': 0.0})
+                                 'variate_mass_of_generating_script': 0.0}, dtype=dt)
             if case['errors'] == 'all':
                 ex['normalisation_sums'] += 1
                 tot = math.fsum(total)
@@ -507,19 +556,19 @@ def _eval_errors(case):
                     rec.add('not-normalised', True, ryp,
                             {'direction': list(r), 'p': p, 'sum_over_all_errors': tot, 'errors': len(total),
                              'sum_over_errors_without_identity_qubit': no_id,
-                             'reference_for_that_partial_sum': no_id_ref})
+                             'reference_for_that_partial_sum': no_id_ref}, dtype=dt)
                 sumtxt = '%.6f' % tot
             else:
                 sumtxt = '-'
             if len(res['outcomes']) < 50:
-                res['outcomes'].append('%s|n%d|%s|ry%d|zero%d|sum%s|dev%.0e'
-                                       % (case['part'], n, d[0] if d else '-', ryp, nz, sumtxt, worst))
+                res['outcomes'].append('%s|n%d|%s|ry%d|zero%d|sum%s|dev%.0e|%s'
+                                       % (case['part'], n, d[0] if d else '-', ryp, nz, sumtxt, worst, dt))
             if len(res['samples']) < 2:
                 k = min(len(sigs) - 1, 7 * (1 + len(res['samples'])))
                 res['samples'].append({'config': F.cfg_label({'cls': case['cls'], 'size': case['size'],
                                                               'deformation': None}),
                                        'noise_deformation': d, 'direction': list(r), 'p': p,
-                                       'error': _pstr(sigs[k]), 'reference_probability': total_ref[k],
+                                       'error': _pstr(sigs[k]), 'dtype': dt, 'reference_probability': total_ref[k],
                                        'error_probability': total[k]})
     ex.update(rec.counts)
     res['extra'] = ex
@@ -647,6 +696,9 @@ def _eval_metropolis(case):
     d = case.get('deformation')
     perms = _perms(code, d)
     rec = _Rec(case, n)
+    prev_dtype = case.get('prev_dtype', 'uint8')
+    if prev_dtype != 'uint8':
+        rec.base['dtype'] = prev_dtype
     res = {'evals': 0, 'nontrivial': 0, 'violations': rec.v, 'outcomes': [], 'samples': []}
     ex = {'metropolis_steps': 0, 'previous_errors_zero_probability_skipped': 0, 'proposals_not_offered': 0,
           'proposals_not_offered_though_channel_positive': 0, 'accepted_branch_steps': 0,
@@ -697,7 +749,7 @@ def _eval_metropolis(case):
                     if p_prev <= 0.0:
                         ex['previous_errors_zero_probability_skipped'] += 1
                         continue
-                    pvec = _vec(prev, n)
+                    pvec = _vec(prev, n).astype(prev_dtype)
                     w_prev = sum(1 for s in prev if s)
                     for q in range(n):
                         for s in (1, 2, 3):
@@ -808,7 +860,7 @@ def _eval_metropolis(case):
                         if _ref_prob(cha, prev) <= 0.0 or _ref_prob(chb, prev) <= 0.0:
                             continue
                         for q1, s1, q2, s2 in ((0, 1, n - 1, 3), (n - 1, 2, 0, 1), (0, 3, 0, 3)):
-                            arr = _vec(prev, n)
+                            arr = _vec(prev, n).astype(prev_dtype)
                             st.clear()
                             st.update(q=q1, pauli=PAULI[s1], b=0)
                             try:
